@@ -712,11 +712,23 @@ class Summaries:
         if not isinstance(p, Ptr) or not isinstance(mid, IntV):
             return None
         n = self.ptr_len(ctx, st, p)
+        ex = ctx.ex
+        if n is not None and (st.facts.simplify(n).const_value() is None or st.facts.simplify(mid.poly()).const_value() is None) \
+                and not (p.path and p.path[-1][0] in ("s", "sx")):
+            # symbolic split point: two opaque sub-slices of known lengths (`buffer.split_at(filled).0` as `&buffer[..filled]`)
+            nn, mm = st.facts.simplify(n), st.facts.simplify(mid.poly())
+            if not ex.obligation(st, ctx.fr, cmp_le(mm, nn, st.facts), {"kind": "index", "what": "mid <= len", "callee": ctx.callee["def"], "span": ctx.span}):
+                return []
+            ety = p.pty.get("ty") if p.pty and p.pty.get("k") in ("slice", "array") else None
+            sty = {"k": "slice", "ty": ety}
+            mut = ctx.callee["name"].endswith("_mut") and p.mut
+            a = Ptr(p.root, tuple(p.path) + (("sx", "0", repr(mm)),), IntV(ex.pbits, False, p=mm), sty, mut)
+            b = Ptr(p.root, tuple(p.path) + (("sx", repr(mm), repr(nn)),), IntV(ex.pbits, False, p=nn - mm), sty, mut)
+            return [(st, Agg("tuple", None, None, [a, b], ex.normalize(ctx.dest_ty) if ctx.dest_ty else None))]
         n = st.facts.simplify(n).const_value() if n is not None else None
         m = st.facts.simplify(mid.poly()).const_value()
         if n is None or m is None:
             return None
-        ex = ctx.ex
         if not ex.obligation(st, ctx.fr, ONE if m <= n else ZERO, {"kind": "index", "what": "mid <= len", "callee": ctx.callee["def"], "span": ctx.span}):
             return []
         base, path = 0, p.path
@@ -728,6 +740,65 @@ class Summaries:
         a = Ptr(p.root, path + (("s", base, base + m),), IntV(ex.pbits, False, p=Poly.const(m)), sty, mut)
         b = Ptr(p.root, path + (("s", base + m, base + n),), IntV(ex.pbits, False, p=Poly.const(n - m)), sty, mut)
         return [(st, Agg("tuple", None, None, [a, b], ex.normalize(ctx.dest_ty) if ctx.dest_ty else None))]
+
+    def s_is_some_and(self, ctx, st):
+        """core::option::Option::is_some_and | core::option::Option::is_none_or | core::result::Result::is_ok_and | core::result::Result::is_err_and"""
+        v, f = ctx.args
+        nm = ctx.callee["name"]
+        want = {"is_some_and": 1, "is_none_or": 1, "is_ok_and": 0, "is_err_and": 1}[nm]
+        other = BoolV(ONE if nm == "is_none_or" else ZERO)
+
+        def h(s2, var, fs):
+            if var == want and fs:
+                return self.call_f(ctx, s2, f, [fs[0]])
+            return [(s2, other)]
+        return self.per_variant(ctx, st, v, h)
+
+    def s_slice_first(self, ctx, st):
+        """slice::first | slice::last | slice::is_empty | array::is_empty | slice::get"""
+        ex = ctx.ex
+        p = ctx.args[0]
+        if not isinstance(p, Ptr):
+            return None
+        n = self.ptr_len(ctx, st, p)
+        if n is None:
+            return None
+        n = st.facts.simplify(n)
+        nm = ctx.callee["name"]
+        if nm == "is_empty":
+            return [(st, BoolV(cmp_eq(n, ZERO, st.facts)))]
+        ety = (p.pty or {}).get("ty")
+        c = n.const_value()
+        if nm == "get":
+            i = ctx.args[1]
+            if not isinstance(i, IntV):
+                return None
+            ic = st.facts.simplify(i.poly()).const_value()
+            if ic is None:
+                return None
+            el = Ptr(p.root, self.elem_path(p, ic), None, ety, False)
+            return [(st, mk_ite(ge0(n - ic - 1, st.facts), Agg("adt", OPTION, 1, [el]), Agg("adt", OPTION, 0, [])))]
+        if nm == "last":
+            if c is None:
+                return None
+            if c == 0:
+                return [(st, Agg("adt", OPTION, 0, []))]
+            return [(st, Agg("adt", OPTION, 1, [Ptr(p.root, self.elem_path(p, c - 1), None, ety, False)]))]
+        el = Ptr(p.root, self.elem_path(p, 0), None, ety, False)
+        return [(st, mk_ite(ge0(n - 1, st.facts), Agg("adt", OPTION, 1, [el]), Agg("adt", OPTION, 0, [])))]
+
+    def s_from_ref(self, ctx, st):
+        """core::slice::raw::from_ref | core::slice::raw::from_mut | core::array::from_ref"""
+        # &x seen as a one-element slice: the same memory, length 1
+        p = ctx.args[0]
+        if not isinstance(p, Ptr):
+            return None
+        ex = ctx.ex
+        v = ex.read(st, p.root, p.path, p.pty)
+        self_counter = ex.fresh("from_ref")
+        root = ("O", self_counter)
+        st.mem[root] = Agg("array", None, None, [v], {"k": "array", "ty": p.pty, "len": {"k": "const", "val": 1}} if p.pty else None)
+        return [(st, Ptr(root, (), IntV(ex.pbits, False, p=ONE), {"k": "slice", "ty": p.pty}, False))]
 
     def s_split_first(self, ctx, st):
         """slice::split_first"""
@@ -843,6 +914,8 @@ class Summaries:
         if name == "zip" and len(args) == 2 and isinstance(args[1], Agg) and args[1].kind == "array":
             # zip(other: IntoIterator): an array argument is iterated by value
             args[1] = Agg("adt", "core::array::into_iter", 0, [args[1]], None)
+        if name == "enumerate" and len(args) == 1:
+            args.append(IntV(ctx.ex.pbits, False, p=ZERO))          # the running index
         return [(st, Agg("adt", "core::iter::" + name, 0, args, ctx.dest_ty))]
 
     def s_range_contains(self, ctx, st):
@@ -925,7 +998,7 @@ class Summaries:
             z = self.take_next(ctx, st, itv)
             if z is not None:
                 return z
-        if ctx.callee["name"] == "next" and isinstance(itv, Agg) and itv.name in ("core::iter::map", "core::iter::copied", "core::iter::cloned") \
+        if ctx.callee["name"] == "next" and isinstance(itv, Agg) and itv.name in ("core::iter::map", "core::iter::copied", "core::iter::cloned", "core::iter::enumerate") \
                 and itv.fields and isinstance(ctx.args[0], Ptr):
             z = self.adaptor_next(ctx, st, itv)
             if z is not None:
@@ -954,7 +1027,9 @@ class Summaries:
         counted = ctx.callee["name"] == "next" and isinstance(itv, Agg) and itv.name in ("core::slice::chunks_exact", "core::slice::chunks_exact_mut") \
             and len(itv.fields) >= 3 and isinstance(itv.fields[0], Ptr) and isinstance(itv.fields[1], IntV) and isinstance(ctx.args[0], Ptr) \
             and self.ptr_len(ctx, st, itv.fields[0]) is not None
-        res = ex.abstract_call(st, ctx.fr, ctx.callee, ctx.r, ctx.args, ctx.dest_ty, ctx.span, pure=counted)
+        exact_range = ctx.callee["name"] == "next" and isinstance(itv, Agg) and (itv.name or "") == "core::ops::range::Range" \
+            and len(itv.fields) >= 2 and isinstance(itv.fields[0], IntV) and isinstance(itv.fields[1], IntV) and isinstance(ctx.args[0], Ptr)
+        res = ex.abstract_call(st, ctx.fr, ctx.callee, ctx.r, ctx.args, ctx.dest_ty, ctx.span, pure=counted or exact_range)
         if ctx.callee["name"] == "next" and isinstance(itv, Agg) and (itv.name or "").startswith("core::ops::range::Range") \
                 and len(itv.fields) >= 2 and isinstance(itv.fields[0], IntV) and isinstance(itv.fields[1], IntV) and isinstance(ctx.args[0], Ptr):
             # core::ops::Range / RangeInclusive over integers, modelled exactly: the event is kept (loop rules
@@ -973,8 +1048,11 @@ class Summaries:
             else:
                 more = cmp_lt(lo.poly(), hi.poly(), st2.facts)
                 new_lo = IntV(lo.bits, lo.signed, p=lo.poly() + more)
-                nv = Agg(itv.kind, itv.name, itv.variant, [new_lo, hi] + list(itv.fields[2:]), itv.ty, itv.extra)
-            ex.write(st2, p.root, p.path, nv, p.pty)
+                nv = None
+                # (only the start changes: written alone, the end keeps its value across a loop - `0..args.len()`)
+                ex.write(st2, p.root, tuple(p.path) + (("f", 0, None),), new_lo, None)
+            if nv is not None:
+                ex.write(st2, p.root, p.path, nv, p.pty)
             if isinstance(ret, SymV):
                 some = ex.variant_cond(ret, 1)
                 # the result is Some(old start) exactly when there was an element left
@@ -1292,6 +1370,13 @@ class Summaries:
             if itv.name == "core::iter::map":
                 for s2, v in self.call_f(ctx, s1, itv.fields[1], [x]):
                     out.append((s2, Agg("adt", OPTION, 1, [v], dt)))
+            elif itv.name == "core::iter::enumerate":
+                # (index, item): the index counts the items handed out so far and is kept in a second field
+                cur = ex.read(s1, p.root, p.path, p.pty)
+                cf = cur.fields[1] if isinstance(cur, Agg) and len(cur.fields) > 1 and isinstance(cur.fields[1], IntV) else IntV(ex.pbits, False, p=ZERO)
+                ex.write(s1, p.root, tuple(p.path) + (("f", 1, None),), IntV(ex.pbits, False, p=cf.poly() + ONE), None)
+                tty = dt["args"][0] if dt and dt.get("args") and dt["args"][0].get("k") == "tuple" else None
+                out.append((s1, Agg("adt", OPTION, 1, [Agg("tuple", None, None, [IntV(ex.pbits, False, p=cf.poly()), x], tty)], dt)))
             else:
                 out.append((s1, Agg("adt", OPTION, 1, [self.deref_arg(ctx, s1, x)], dt)))
         return out
@@ -1398,6 +1483,33 @@ class Summaries:
         if name == "to_be_bytes" or (name == "to_ne_bytes" and ctx.ex.F.endian == "big"):
             by = list(reversed(by))
         return [(st, Agg("array", None, None, by, {"k": "array", "ty": T.U8, "len": {"k": "const", "val": nbytes}}))]
+
+    def s_color_into_storage(self, ctx, st):
+        """embedded_graphics_core::pixelcolor::IntoStorage::into_storage"""
+        # the raw value r:g:b (r most significant) in the smallest unsigned integer that holds it
+        v = ctx.args[0]
+        ws = self.color_widths(ctx, ctx.gargs[0])
+        nm = self.color_name(v)
+        tb = ctx.ex.ibits(ctx.ex.normalize(ctx.dest_ty)) if ctx.dest_ty is not None else None
+        if ws is None or nm is None or tb is None:
+            return None
+        wr, wg, wb = ws
+        bits = []
+        for ch, w in (("b", wb), ("g", wg), ("r", wr)):
+            a = ("i", "%s.%s" % (nm, ch), w, False)
+            bits.extend(Poly.atom(("bit", a, i)) for i in range(w))
+        if len(bits) > tb[0]:
+            return None
+        bits = bits + [ZERO] * (tb[0] - len(bits))
+        return [(st, IntV(tb[0], tb[1], bv=bits))]
+
+    def s_int_sign(self, ctx, st):
+        """int::is_negative | int::is_positive"""
+        v = self.deref_arg(ctx, st, ctx.args[0])
+        if not isinstance(v, IntV):
+            return None
+        p_ = v.poly()
+        return [(st, BoolV(b_not(ge0(p_, st.facts)) if ctx.callee["name"] == "is_negative" else ge0(p_ - 1, st.facts)))]
 
     def s_size_new(self, ctx, st):
         """embedded_graphics_core::geometry::size::Size::new | embedded_graphics_core::geometry::point::Point::new"""
